@@ -22,6 +22,7 @@ from mc import clientenv as CE, refcip as R, sim
 
 ID = "C12"
 LEVEL = "exploration"
+ISOLATE_SHARDS = True        # every shard runs in a forked child of a pristine worker (mc/core.py)
 RULE = ("A: every list of <= N operations over a 10-operation alphabet (tag / @class/inst/attr reads, element ranges, byte "
         "offset, casted writes, a refused write, a refused read, Get/Set Attribute Single, two operations with their own "
         "route_path / send_path) x every setting (synchronous | depth) x multiple x fragment, one real client run each; "
@@ -657,3 +658,9 @@ def replay(case):
         bad, _ = check_string(M, case["text"], case["fragment"], case["int_type"])
         return [m for _, m in bad]
     return [m for _, m in check_roundtrip(M, case["segs"], case["elem"], case["count"])]
+
+
+def preload():
+    """import the code under test once in the (pristine) worker; shard children are forked from it"""
+    from mc import sim as _sim
+    _sim.mods()
